@@ -210,6 +210,37 @@ func (s *Set) M__xor__(other Object) (Object, error) {
 	return ret, nil
 }
 
+// In place versions of the set operations - these change the set
+// itself so that every reference to it sees the result
+
+func (s *Set) inPlace(res Object, err error) (Object, error) {
+	if err != nil {
+		return nil, err
+	}
+	r, ok := res.(*Set)
+	if !ok {
+		return res, nil
+	}
+	s.items = r.items
+	return s, nil
+}
+
+func (s *Set) M__iand__(other Object) (Object, error) {
+	return s.inPlace(s.M__and__(other))
+}
+
+func (s *Set) M__ior__(other Object) (Object, error) {
+	return s.inPlace(s.M__or__(other))
+}
+
+func (s *Set) M__isub__(other Object) (Object, error) {
+	return s.inPlace(s.M__sub__(other))
+}
+
+func (s *Set) M__ixor__(other Object) (Object, error) {
+	return s.inPlace(s.M__xor__(other))
+}
+
 // Check interface is satisfied
 var _ I__len__ = (*Set)(nil)
 var _ I__bool__ = (*Set)(nil)
